@@ -38,12 +38,12 @@ type Effect struct {
 	Kind string // presence-set, presence-clear, value-store, swap, merge-call, table-insert, table-delete, table-lookup, tree-insert, tree-delete, callback, lock, unlock
 	Ins  ssa.Instruction
 	// operands of interest
-	Target ssa.Value // bitmap / slice / map / tree the effect applies to
-	Offset ssa.Value // row offset expression (stripped of the word/bit arithmetic), if recognisable
-	Val    ssa.Value // value stored / key inserted
-	Lock   string
-	Inlined bool // found inside a helper the body calls; operands that are parameters are bound to the call's arguments
-	Inner   ssa.Instruction          // the instruction inside the helper (Ins is the call in the loop body)
+	Target  ssa.Value // bitmap / slice / map / tree the effect applies to
+	Offset  ssa.Value // row offset expression (stripped of the word/bit arithmetic), if recognisable
+	Val     ssa.Value // value stored / key inserted
+	Lock    string
+	Inlined bool                      // found inside a helper the body calls; operands that are parameters are bound to the call's arguments
+	Inner   ssa.Instruction           // the instruction inside the helper (Ins is the call in the loop body)
 	Bind    func(ssa.Value) ssa.Value // helper parameter ↦ argument of the call (nil result: not a parameter)
 }
 
